@@ -5,3 +5,4 @@ import Tcell.Props.C08
 import Tcell.Model.Views
 import Tcell.Model.ViewsTree
 import Tcell.Props.C20
+import Tcell.Props.C16
